@@ -127,7 +127,7 @@ pub fn c03_slice(data: &[u8]) -> PResult {
     let root = b.spec(id, 160);
     let depth = 1 + b.u8() as usize % 3;
     let path = (0..depth).map(|_| c03::RangeOp { form: b.u8() % 7, a: b.u16(), b: b.u16() }).collect();
-    let oob = if b.u8() % 3 == 0 { Some(c03::Oob { kind: b.u8() % 8, a: b.u16(), over: b.u8() % 3 }) } else { None };
+    let oob = if b.u8() % 3 == 0 { Some(c03::Oob { kind: b.u8() % 8, a: b.u16(), over: b.u8() % 3, far: if b.u8() % 3 == 0 { Some(b.u8()) } else { None } }) } else { None };
     c03::dispatch(&c03::Case { codec: id, root, path, oob })
 }
 
@@ -161,7 +161,14 @@ pub fn c06_edits(data: &[u8]) -> PResult {
             6 | 7 => c06::Op::Prepend(arg(&mut b)),
             8 | 9 => c06::Op::Insert(b.u16(), arg(&mut b)),
             10 | 11 | 12 => c06::Op::Remove { form: b.u8() % 9, a: b.u16(), b: b.u16() },
-            13 => c06::Op::Truncate(b.u16()),
+            13 => {
+                if b.u8() % 2 == 0 {
+                    c06::Op::Truncate(b.u16())
+                } else {
+                    let n = b.u8() as usize % 40;
+                    c06::Op::ExtendFiltered(b.codes(id, n), b.codes(id, 1)[0], b.u8() % 2 == 0)
+                }
+            }
             14 => match b.u8() % 4 {
                 0 => c06::Op::Clear,
                 1 => c06::Op::SnapClone,
